@@ -51,15 +51,17 @@ func (p *Person) flatString() string {
 // recursive into the Contacts array.
 func (p *Person) Copy() *Person {
 	np := &Person{
-		Name:     p.Name,
-		IsOrg:    p.IsOrg,
-		Email:    p.Email,
-		Url:      p.Url,
-		Phone:    p.Phone,
-		Contacts: []*Person{},
+		Name:  p.Name,
+		IsOrg: p.IsOrg,
+		Email: p.Email,
+		Url:   p.Url,
+		Phone: p.Phone,
+	}
+	if p.Contacts != nil {
+		np.Contacts = []*Person{}
 	}
 	for _, op := range p.Contacts {
-		op.Contacts = append(op.Contacts, op.Copy())
+		np.Contacts = append(np.Contacts, op.Copy())
 	}
 	return np
 }
